@@ -14,4 +14,28 @@ def get(pid):
     if pid in ('C07', 'C13'):
         from . import build_checks
         return getattr(build_checks, 'check_' + pid.lower())
+    if pid in ('C08', 'C12'):
+        from . import history_checks
+        return getattr(history_checks, 'check_' + pid.lower())
+    if pid == 'C19':
+        from . import text_checks, history_checks, core
+
+        def check_c19(tier, seed):
+            chk = core.Check('C19', tier, seed)
+            mods = text_checks._mods()
+            chk.rule = ('comment objects: every content value of the TextCases universes and every create/append/+=/render '
+                        'history (<=4 calls, hostile texts) is rendered by the real cpp_gen.Comment and compared with the model '
+                        '(CommentLaw: every line starts with //, carries the stored text, rendering is read-only), random '
+                        'comment traces are validated by TextBlockTrace.tla; builds: for 2 documents x 4 configurations, '
+                        'copyright/creator variants with every line-break character, blank lines, */, #include, }; are built '
+                        'and BuildHistoryTrace.tla requires the non-comment part of all files to be a function of the '
+                        'configuration without copyright/creator.')
+            text_checks.check_c19_text(chk, tier, seed, mods)
+            history_checks.c19_build_part(chk, tier, seed)
+            chk.exhaustive = True
+            chk.assumptions = ['a comment line is a line starting with // ; explicit indent() calls on a Comment object '
+                               'are outside the statement', 'a rendered line ending in a backslash (line splicing) is '
+                               'not covered by the statement']
+            return chk.finish()
+        return check_c19
     raise SystemExit(f'no check registered for {pid}')
